@@ -30,18 +30,30 @@ CHECKS = {
          "panic / process-death monitor over generated admitted inputs", "the CRD interpreter in refspec/crd.go models type/required/minimum/default/preserve-unknown-fields; objects without spec and astronomically large replicas are outside the generated domain"),
 }
 
-NOT_YET = {
- "C02": "not claimed yet: convergence/quiescence check (calm phase) under construction",
- "C06": "not claimed yet: write-log monitor for identity/claims under construction",
- "C08": "not claimed yet: revision-store monitor under construction",
- "C09": "not claimed yet: fault enumeration with differential twin under construction",
- "C10": "not claimed yet: ownership monitor under construction",
- "C16": "not claimed yet: event-shape enumeration under construction",
- "C17": "not claimed yet: upgrade-helper fault enumeration under construction",
- "C18": "not claimed yet: migration byte/behaviour check under construction",
- "C19": "not claimed yet: round-trip monitors under construction",
- "C20": "not claimed yet: hijacked-watch schedule driver under construction",
-}
+CHECKS.update({
+ "C02": ("exploration", "Bounded-progress restatement of the liveness claim: after a hostile random phase the calm phase must reach the target state and a write-free round within 10*(pods+replicas)+30 rounds, then stay write-free for 5 more; unbounded 'eventually' cannot be decided by a finite run and is said so.", "4 C02",
+         "scenario-level convergence + quiescence monitor (bounded progress in logical rounds) over the stepping engine", SIM),
+ "C06": ("exploration", "Ordered write log of the real pod control: identity stamping of every created pod, claims exist before the pod create, failed claim blocks the pod, no claim rewritten/deleted; directed slot-in/slot-out histories compare claim UIDs; single claim faults enumerated in directed scenarios.", "4 C06",
+         "write-log monitor over recorded API calls + directed histories", SIM),
+ "C08": ("exploration", "After every successful reconcile the believed update revision is decoded independently and via the exported ApplyRevision and compared with the template; revision creates/renumbers judged; directed collision and rollback-after-collision scenarios.", "4 C08",
+         "revision-store monitor over recorded API calls + directed collision scenarios", SIM),
+ "C09": ("fault_enumeration", "Every call identity of a corpus of target reconciles x every applicable error kind x {before, applied-then-error, crash before, crash after}, singly and in (enumerated or sampled) pairs, through the real worker path; oracles: retry scheduled, recovery to the fault-free twin's final state, safety monitors armed on the partial work. Enumeration is the right level because the statement quantifies over call positions and error kinds, which are finite per reconcile.", "4 C09",
+         "fault enumeration by call identity with a differential fault-free twin", SIM + " Crash points are before/after each API call (the controller keeps no state between calls)."),
+ "C10": ("exploration", "Every controller write on pods/revisions/sets is judged against the owner of its target (from the snapshot / the stored object before the call), adoption must follow a confirming uncached read, caches are compared with pre-reconcile deep copies.", "4 C10",
+         "per-write ownership monitor + cache-mutation detector over recorded API calls", SIM),
+ "C16": ("exploration", "Exhaustive enumeration of the event-shape space against the handlers the controller registered (captured at AddEventHandler), observed at the work queue with a reference model required ⊆ enqueued ⊆ allowed; worker bookkeeping with up to 24 consecutive injected failures on a virtual-time queue.", "4 C16",
+         "exhaustive event-shape enumeration + queue-call monitor on a virtual-time work queue", "the virtual-time queue is the harness' implementation of workqueue.RateLimitingInterface; live informer path is exercised by the race tier only"),
+ "C17": ("fault_enumeration", "Every API call position of helper.Upgrade x applicable error kind x {before, applied-then-error, crash before, crash after}, retried until success, plus sampled double faults, over generated built-in worlds; oracles on the combined log (orphan propagation, Advanced object equal at delete time, revisions relabelled, no pod/claim write) and differential final state.", "4 C17",
+         "fault enumeration by call identity over the real upgrade helper with write-log monitor and differential final state", SIM),
+ "C18": ("exploration", "Byte equality of revision data through the exported Match() against upstream's getPatch over the apps/v1 object for fuzzed templates; post-migration behaviour monitored on the real controller after the real Upgrade over worlds built by a reference built-in controller.", "4 C18",
+         "differential byte check + post-migration reconcile monitor", SIM + " The reference built-in controller state (revision naming/labels/owners) is written from upstream's algorithm."),
+ "C19": ("exploration", "Round-trip / idempotence / codec monitors over gofuzz-generated apps/v1 objects through the real conversion functions and the real hijack client over simapi; slot/pause codecs over int32 extremes and annotation maps.", "4 C19",
+         "round-trip and idempotence monitors over generated objects", "the five unmodelled apps/v1 fields are derived by reflection and zeroed; simapi owns uid/resourceVersion/creationTimestamp like a real server"),
+ "C20": ("exploration", "Goroutine-level driver for the hijacked watch: event sequences x consumer plans (incl. Stop while the relay is parked with an event in flight, decided from a goroutine dump) in child processes with production crash behaviour; sequence / closure / leak / source-stop oracles.", "4 C20",
+         "schedule-driven producer/consumer/stopper harness with goroutine-dump leak detector; process death attributed by logged input", "leak verdict = relay still parked 3 s after all other parties finished (state-based, wall clock only as watchdog)"),
+})
+
+NOT_YET = {}
 
 def main():
     hooks = subprocess.run(["git","-C","/repo","log","--format=%H %s"],capture_output=True,text=True).stdout.splitlines()
